@@ -31,6 +31,17 @@ for q in sorted(missing):
     except Exception as e:
         ok, m, x = False, [], []
         print('skip', q, type(e).__name__, e)
+    if not ok:
+        # multi-line string literals do not survive dedenting: take the function from its syntax tree instead
+        import copy
+        node = copy.deepcopy(fi.node)
+        node.decorator_list = []
+        node.name = alias
+        chunk = '\n\n# reference for %s\n%s\n' % (q, ast.unparse(node))
+        try:
+            ok, m, x = compare(fi, template_func(existing + chunk, alias, closure=tail.count('.') >= (2 if fi.cls else 1)))
+        except Exception as e:
+            ok = False
     if ok:
         existing += chunk
         k += 1
